@@ -2,9 +2,9 @@ SPECIFICATION Spec
 CONSTANTS
   Pairs = {1, 2}
   MaxModel = 2
-  FileMode = TRUE
+  FileMode = FALSE
   MaxOps = 5
-  Layered = FALSE
+  Layered = TRUE
   NObj = 2
   Deviations = {}
 INVARIANT TypeOK
